@@ -5,8 +5,8 @@
    index set in any order, every prescribed values.  gen_* are the definitions REGENERATED from the source. *)
 From Coq Require Import List ZArith Bool Arith Ring Lia.
 Import ListNotations.
-Require Import Base.C05_Np Model.C05_BC Model.C05_MPC Proofs.C05_IdxProofs Proofs.C05_CondenseProofs Proofs.C05_EnforceProofs
-               Proofs.C05_ChainProofs Proofs.C05_PenalizeProofs Proofs.C05_EquivProofs Proofs.C05_MPCProofs Gen.C05Gen Dyn.C05Tie.
+Require Import Base.C05_Np Model.C05_BC Model.C05_MPC Model.C05_Ext Proofs.C05_IdxProofs Proofs.C05_CondenseProofs Proofs.C05_EnforceProofs
+               Proofs.C05_ChainProofs Proofs.C05_PenalizeProofs Proofs.C05_EquivProofs Proofs.C05_MPCProofs Proofs.C05_ExtProofs Gen.C05Gen Dyn.C05Tie.
 
 Definition is_ring {R} (o : ring_ops R) := ring_theory (r0 o) (r1 o) (radd o) (rmul o) (rsub o) (ropp o) (@eq R).
 
@@ -57,6 +57,31 @@ Theorem C05_flatten_dofs_union :
 Proof. intros n views H. split; [now apply flatten_dofs_given_ok | intros d; apply flatten_dofs_union]. Qed.
 Print Assumptions C05_flatten_dofs_union.
 
+(* ---- index arrays with REPEATED entries denote a set (no duplicate-free hypothesis any more): the array branch of
+   _flatten_dofs returns a duplicate-free list with the same elements, so for ANY index lists in range: *)
+Theorem C05_flatten_array_set :
+  forall n S, (forall c, In c S -> c < n) ->
+    given_ok n (gen_flatten_array S) /\ forall c, In c (gen_flatten_array S) <-> In c S.
+Proof. exact gen_flatten_array_correct. Qed.
+Print Assumptions C05_flatten_array_set.
+
+Theorem C05_condense_expand_sound_any :
+  forall (R : Type) (o : ring_ops R), is_ring o ->
+  forall (A : list (list (nat * R))) (b x : list R) (Iraw Draw : option (list nat)) (I D : list nat) (z : list R),
+    length x = length A -> rows_in_range (length A) A ->
+    sel_bounded (length A) Iraw -> sel_bounded (length A) Draw ->
+    gen_init_bc (length A) (option_map gen_flatten_array Iraw) (option_map gen_flatten_array Draw) = Some (I, D) ->
+    length z = length I ->
+    matvec o (gen_condense_A A I) z = gen_condense_b o A b x I D ->
+    (forall S, Iraw = Some S -> forall c, In c I <-> In c S) /\
+    (forall S, Draw = Some S -> forall c, In c D <-> In c S) /\
+    split_ok (length A) I D /\
+    length (gen_expand x I z) = length A /\
+    (forall d, In d D -> vnth o (gen_expand x I z) d = vnth o x d) /\
+    (forall i, In i I -> vnth o (matvec o A (gen_expand x I z)) i = vnth o b i).
+Proof. intros R o Rth. exact (condense_expand_sound_any o Rth gen_flatten_array gen_flatten_array_correct). Qed.
+Print Assumptions C05_condense_expand_sound_any.
+
 (* generalized eigenproblems: with homogeneous data on D an eigenpair of the reduced pencil expands to a vector
    satisfying the full pencil's equations on the kept rows *)
 Theorem C05_condense_eig_consistent :
@@ -83,7 +108,7 @@ Print Assumptions C05_enforce_positions.
 (* exactly those stored values are zeroed, every other stored value is untouched *)
 Theorem C05_enforce_zeroed_exactly :
   forall (R : Type) (o : ring_ops R) n (A : csr R) (D : list nat),
-    csr_valid n A -> (forall d, In d D -> d < n) ->
+    csr_valid0 n A -> (forall d, In d D -> d < n) ->
     enforce_zeroed o gen_enforce_idx A D = Some (zeroed_csr o A D) /\
     forall k,
       ((exists d, In d D /\ ipn (indptr A) d <= k < ipn (indptr A) (S d)) -> nth k (data (zeroed_csr o A D)) (r0 o) = r0 o) /\
@@ -133,6 +158,63 @@ Proof.
     + exact (Hout i Hni).
 Qed.
 Print Assumptions C05_enforce_spec.
+
+(* enforce for ANY index list (repetitions allowed, any order), both call forms: as C05_enforce_spec, with I, D the sets
+   the given list denotes *)
+Theorem C05_enforce_spec_any :
+  forall (R : Type) (o : ring_ops R), is_ring o ->
+  forall n (A : csr R) (b x : list R) (Iraw Draw : option (list nat)) (diag : R),
+    csr_valid n A -> length b = n -> sel_bounded n Iraw -> sel_bounded n Draw ->
+    (exists S, (Iraw = Some S /\ Draw = None) \/ (Iraw = None /\ Draw = Some S)) ->
+    exists I D M' b',
+      gen_init_bc n (option_map gen_flatten_array Iraw) (option_map gen_flatten_array Draw) = Some (I, D) /\ split_ok n I D /\
+      (forall S, Iraw = Some S -> forall c, In c I <-> In c S) /\ (forall S, Draw = Some S -> forall c, In c D <-> In c S) /\
+      enforce o gen_enforce_idx A b x (option_map gen_flatten_array Iraw) (option_map gen_flatten_array Draw) diag = Some (M', b') /\
+      length M' = n /\ length b' = n /\
+      (forall d, In d D ->
+         (forall j, dense_entry o (mrow M' d) j = if Nat.eqb d j then diag else r0 o) /\
+         (forall y, row_dot o (mrow M' d) y = rmul o diag (vnth o y d)) /\
+         vnth o b' d = vnth o x d) /\
+      (forall i, i < n -> ~ In i D ->
+         (mrow M' i = csr_row A i \/ (has_col (csr_row A i) i = false /\ mrow M' i = csr_row A i ++ [(i, r0 o)])) /\
+         (forall y, row_dot o (mrow M' i) y = row_dot o (csr_row A i) y) /\
+         vnth o b' i = vnth o b i).
+Proof.
+  intros R o Rth n A b x Iraw Draw diag HA Hb HI HD Hsel.
+  destruct (C05_enforce_spec R o Rth n A b x (option_map gen_flatten_array Iraw) (option_map gen_flatten_array Draw) diag HA Hb
+              (flat_given gen_flatten_array gen_flatten_array_correct n Iraw HI)
+              (flat_given gen_flatten_array gen_flatten_array_correct n Draw HD))
+    as (I & D & M' & b' & E & HS & Rest).
+  { destruct Hsel as (S & [[-> ->]|[-> ->]]); exists (gen_flatten_array S); simpl; tauto. }
+  destruct (init_bc_any gen_flatten_array gen_flatten_array_correct n Iraw Draw I D HI HD E) as (_ & E1 & E2).
+  exists I, D, M', b'. split; [exact E|]. split; [exact HS|]. split; [exact E1|]. split; [exact E2 | exact Rest].
+Qed.
+Print Assumptions C05_enforce_spec_any.
+
+(* enforce / penalize on CSR storage with DUPLICATE (row, col) entries (meaning: their sum), no assumption on the rows:
+   zeroing every stored entry of the constrained rows and then setting the diagonal is still right, at the level of the
+   dense semantics (setdiag modelled as "replace all stored entries of position (i,i) by one") *)
+Theorem C05_enforce_any_storage :
+  forall (R : Type) (o : ring_ops R), is_ring o ->
+  forall n (A : csr R) (D : list nat) (diag : R),
+    csr_valid0 n A -> (forall d, In d D -> d < n) ->
+    exists M', enforce_matrix_sum o gen_enforce_idx A D diag = Some M' /\ length M' = n /\
+      (forall d, In d D -> forall y, row_dot o (mrow M' d) y = rmul o diag (vnth o y d)) /\
+      (forall i, i < n -> ~ In i D -> forall y, row_dot o (mrow M' i) y = row_dot o (csr_row A i) y).
+Proof. intros R o Rth. exact (enforce_any_storage o Rth gen_enforce_idx gen_enforce_idx_correct). Qed.
+Print Assumptions C05_enforce_any_storage.
+
+Theorem C05_penalize_any_storage :
+  forall (R : Type) (o : ring_ops R), is_ring o ->
+  forall (M : list (list (nat * R))) (D : list nat) (w : R) (y : list R),
+    (forall d, In d D -> d < length M) ->
+    length (penalize_matrix_sum o M D w) = length M /\
+    (forall d, In d D ->
+       row_dot o (mrow (penalize_matrix_sum o M D w) d) y
+       = radd o (rmul o w (vnth o y d)) (rsub o (row_dot o (mrow M d) y) (rmul o (dense_entry o (mrow M d) d) (vnth o y d)))) /\
+    (forall i, i < length M -> ~ In i D -> row_dot o (mrow (penalize_matrix_sum o M D w) i) y = row_dot o (mrow M i) y).
+Proof. intros R o Rth. exact (penalize_any_storage o Rth). Qed.
+Print Assumptions C05_penalize_any_storage.
 
 (* the enforced system has the solutions of: diag * y_d = x_d on D, ORIGINAL equations elsewhere *)
 Theorem C05_enforce_solution_iff :
